@@ -452,8 +452,8 @@ PROPS["C04"] = dict(
     rule="rtv: Values — a fixed corpus (boundary integers 0, +-1, +-2^53(+-1), i64::MIN/MAX, u64::MAX, powers of ten; every control "
          "character, quote, backslash, U+2028, U+FFFF, astral characters as string, as key and inside a string; strings that look "
          "like escapes; an object with all adversarial keys; empty containers; 1/2/50/100/126/127-deep arrays, objects and mixes "
-         "around five leaves; floats admitted by the configuration), 4000 (thorough 60000) random values of depth 0-4 (a third "
-         "without floats) and 200 (3000) random values wrapped 90-124 deep; floats: any finite f64 under float_roundtrip and "
+         "around five leaves; floats admitted by the configuration), 4000 (thorough 30000) random values of depth 0-4 (a third "
+         "without floats) and 200 (1500) random values wrapped 90-124 deep; floats: any finite f64 under float_roundtrip and "
          "arbitrary_precision, otherwise only k*10^e with k < 10^15, |e| <= 22 whose printed text has at most 15 significant digits "
          "and decimal exponent within +-22; each through to_string/from_str, to_vec/from_slice, to_writer/from_reader(chunked) x "
          "{compact, pretty}; the value read back must have the same wire encoding (integers exact, floats bit for bit, object "
